@@ -22,7 +22,11 @@ LEVEL = "proof"
 RULE = ("pairs of diagrams from one PRNG: sizes 0-7 (quick) / 0-40 (thorough) per side, coordinate modes lattice/half/"
         "dyadic (scales 2^-20..2^20)/decimal/uniform, repeated points (p=0.2), diagonal points, non-finite deaths "
         "(inf mostly, -inf/nan rarely; p=0.25 of cases), empty sides in three array shapes, an extra third column, "
-        "integer dtype, whole-pair rescaling by 2^+-20, a small below-diagonal stream (model comparison only); "
+        "whole-pair rescaling by 2^+-20, a small below-diagonal stream (model comparison only); every argument is handed over "
+        "in a representation that holds its numbers unchanged: float64 array, list, tuple, and — where the coordinates "
+        "allow — float32, int64/int32/int16/int8/uint8 arrays and nested Python-int lists; 12% of the cases are integer-valued "
+        "diagrams spanning the whole range of such a dtype (negative coordinates for the signed ones), so that coordinate "
+        "differences leave the dtype's range; "
         "non-trivial = at least 2 finite points in total; distinct by digest of (dgm1, dgm2)")
 ASSUMPTIONS = [
     "births are finite; deaths are finite or inf/-inf/nan (np.isfinite treats the three alike, so does the model)",
@@ -30,27 +34,54 @@ ASSUMPTIONS = [
     "only compared against the model, the specification is not claimed there)",
     "hopcroftkarp.HopcroftKarp.maximum_matching returns a maximum-cardinality matching as a two-way dict "
     "(a parameter of the theorems; re-checked and certified for every probe of every run)",
-    "exact-arithmetic idealisation: on dyadic inputs the code's float arithmetic is exact and values are compared "
-    "exactly; elsewhere within 1e-9*max(1, largest |coordinate|)",
+    "exact-arithmetic idealisation: on dyadic and integer inputs the code's float arithmetic is exact and values are compared "
+    "exactly; elsewhere within 1e-9 * largest |coordinate| (no floor at 1)",
+    "inputs are converted with dtype=float before any arithmetic (/repo fix 82ac8af), so the representation does not matter; the "
+    "model is dtype-free: the same exact rationals go to the driver whatever the representation",
+    "probe-level tie: the candidate list and the threshold graph of EVERY Hopcroft–Karp probe of the real run are read from the "
+    "running frame and compared with the model's (`cands`, `thr`): equal on exact inputs, sandwiched between the model's graphs at "
+    "d -+ 1e-9*scale elsewhere",
 ]
 TRUSTED = ["hopcroftkarp (contract: maximum matching; certified per probe by a Lean-verified vertex-cover check)"]
 TOL = 1e-9
-EXPECTED_DIGEST = "7aaa41904c58f8b1"     # structural digest of persim.bottleneck.bottleneck the model was written against
-EXACT_MODES = ("lattice", "half", "dyadic")
+EXPECTED_DIGEST = "f5f1687a93d6c079"     # structural digest of persim.bottleneck.bottleneck the model mirrors (after /repo fix 82ac8af: inputs converted with dtype=float)
+EXACT_MODES = ("lattice", "half", "dyadic", "int")
+# the theorems that carry clauses of the property statement; the other obligations counted in the evidence are the
+# steps they are proved from (bsearch_least, feas_monotone, aug_perfect_iff_pm, core_eq_spec, …), the soundness of
+# the certificate checkers the harness uses (matching/cover/cert_opt), and concrete instances
+CORE_THEOREMS = ["PersimVerif.C01.bottleneck_eq_spec",      # value = min-max matching cost, all sizes, every max-matching oracle
+                 "PersimVerif.C01.oracle_irrelevant",       # … hence independent of the hash seed
+                 "PersimVerif.C01.inf_dropped"]             # non-finite deaths dropped, flagged, without influence
 
 
 # ----------------------------------------------------------------------------- real code, instrumented
 
 class Recorder:
-    """stands in for the name `HopcroftKarp` inside persim.bottleneck: records (graph, result) of every probe"""
+    """stands in for the name `HopcroftKarp` inside persim.bottleneck: records (graph, result) of every probe, and —
+    read from the calling frame of `bottleneck`, nothing is changed there — the threshold `d` the probe was built
+    for and, at the first probe, the whole candidate list `ds` (None when the code has no such local variables)"""
 
     def __init__(self, real):
         self.real = real
         self.probes = []
+        self.ds = None          # candidate list at the first probe
+        self.thr = []           # threshold of each probe (None = not observable)
 
     def __call__(self, graph):
         rec = self
         snap = {k: set(v) for k, v in graph.items()}      # HopcroftKarp.__init__ mutates its argument
+        d = ds = None
+        try:
+            loc = sys._getframe(1).f_locals
+            if loc.get("graph") is graph:
+                d = float(loc["d"])
+                if not rec.thr:
+                    ds = [float(x) for x in np.asarray(loc["ds"], dtype=float).ravel()]
+        except Exception:
+            d = ds = None
+        if not rec.thr:
+            rec.ds = ds
+        rec.thr.append(d)
         inner = self.real(graph)
 
         class _W:
@@ -61,20 +92,73 @@ class Recorder:
         return _W()
 
 
-def to_array(d, shape_kind, as_int):
+INT_RANGES = {"uint8": (0, 255), "int8": (-128, 127), "int16": (-2 ** 15, 2 ** 15 - 1), "int32": (-2 ** 31, 2 ** 31 - 1),
+              "int64": (-2 ** 40, 2 ** 40)}
+REPS = ("float64", "float32", "list", "tuple", "pyint") + tuple(INT_RANGES)
+
+
+def rep_ok(d, rep):
+    """can the diagram `d` (lists of floats) be handed over in representation `rep` without changing any number?"""
+    if rep in ("float64", "list", "tuple"):
+        return True
+    xs = [x for p in d for x in p]
+    if rep == "float32":
+        with np.errstate(all="ignore"):
+            return all(math.isnan(x) or float(np.float32(x)) == x for x in xs)
+    if not all(math.isfinite(x) and x == math.floor(x) for x in xs):
+        return False                                  # integer representations cannot hold inf/nan or fractions
+    lo, hi = INT_RANGES["int64" if rep == "pyint" else rep]
+    return all(lo <= x <= hi for x in xs)
+
+
+def reps_for(d):
+    return [rp for rp in REPS if rep_ok(d, rp)]
+
+
+def to_array(d, shape_kind, rep="float64"):
+    """the argument handed to the real function.  The MODEL never sees the representation: the same exact
+    rationals go to the driver whatever `rep` is (property C01 is about the numbers, not their dtype)."""
+    if rep is True:
+        rep = "int64"                                 # replay files written before the representations existed
+    if not rep or not rep_ok(d, rep):
+        rep = "float64"
     if len(d) == 0:
-        return [np.array([]), np.zeros((0, 2)), np.array([[]])][shape_kind % 3]
+        if rep in ("list", "pyint"):
+            return []
+        if rep == "tuple":
+            return ()
+        dt = float if rep == "float64" else getattr(np, rep)
+        return [np.array([], dtype=dt), np.zeros((0, 2), dtype=dt), np.array([[]], dtype=dt)][shape_kind % 3]
+    if rep == "list":
+        return [[float(x) for x in p] for p in d]
+    if rep == "tuple":
+        return tuple(tuple(float(x) for x in p) for p in d)
+    if rep == "pyint":
+        return [[int(x) for x in p] for p in d]
     a = np.array(d, dtype=float)
-    if as_int and np.all(np.isfinite(a)) and np.all(a == np.round(a)) and np.max(np.abs(a)) < 2 ** 40:
-        return a.astype(np.int64)
-    return a
+    if rep == "float64":
+        return a
+    return a.astype(getattr(np, rep))
+
+
+def case_reps(case):
+    rp = case.get("rep")
+    if rp is None:
+        rp = "int64" if case.get("int") else "float64"
+    if isinstance(rp, str):
+        rp = [rp, rp]
+    return rp
+
+
+def case_args(case):
+    r1, r2 = case_reps(case)
+    return to_array(case["dgm1"], case.get("shape1", 0), r1), to_array(case["dgm2"], case.get("shape2", 0), r2)
 
 
 def run_code(case, record=True):
     """-> ('ok', value, warn1, warn2, probes) or ('err', kind, …)"""
     bmod = common.pm("bottleneck")
-    a = to_array(case["dgm1"], case.get("shape1", 0), case.get("int", False))
-    b = to_array(case["dgm2"], case.get("shape2", 0), case.get("int", False))
+    a, b = case_args(case)
     real = bmod.HopcroftKarp
     rec = Recorder(real)
     if record:
@@ -86,11 +170,11 @@ def run_code(case, record=True):
                 try:
                     v = bmod.bottleneck(a, b)
                 except Exception as e:      # the code's own error kinds are part of the contract
-                    return ("err", type(e).__name__, False, False, rec.probes)
+                    return ("err", type(e).__name__, False, False, rec.probes, rec)
         msgs = [str(x.message) for x in w]
         w1 = any(m.startswith("dgm1 has points with non-finite death") for m in msgs)
         w2 = any(m.startswith("dgm2 has points with non-finite death") for m in msgs)
-        return ("ok", float(v), w1, w2, rec.probes)
+        return ("ok", float(v), w1, w2, rec.probes, rec)
     finally:
         bmod.HopcroftKarp = real
 
@@ -206,8 +290,40 @@ def oracle_opt(case):
 
 # ----------------------------------------------------------------------------- generation
 
+INT_STREAM = {"uint8": [(0, 6), (0, 255), (0, 255), (100, 255)], "int8": [(-6, 6), (-128, 127), (-128, 127), (-128, -100)],
+              "int16": [(-300, 300), (-2 ** 15, 2 ** 15 - 1), (0, 2 ** 15 - 1)], "int32": [(-70000, 70000), (-2 ** 31, 2 ** 31 - 1)],
+              "int64": [(-2 ** 40, 2 ** 40)], "pyint": [(-2 ** 40, 2 ** 40), (0, 255)], "float32": [(-2 ** 24, 2 ** 24), (0, 255)]}
+
+
+def gen_int_case(ctx, nmax):
+    """integer-valued diagrams spanning the whole range of a narrow dtype (differences leave the dtype's range;
+    exact in double precision, so the value is compared exactly)"""
+    r = ctx.rng
+    rep = r.choice(["uint8", "uint8", "int8", "int8", "int16", "int32", "int64", "pyint", "float32"])
+    lo, hi = r.choice(INT_STREAM[rep])
+    dgms = []
+    for _ in range(2):
+        n = r.choice([0, 1, 1, 2, 3, r.randint(0, nmax)])
+        pts = []
+        for _ in range(n):
+            if pts and r.random() < 0.2:
+                pts.append(list(r.choice(pts)))
+            else:
+                b, d = sorted((r.randint(lo, hi), r.randint(lo, hi)))
+                pts.append([float(b), float(d if r.random() < 0.85 else b)])
+        dgms.append(pts)
+    if dgms[0] and r.random() < 0.3:
+        dgms[1] += [list(p) for p in dgms[0] if r.random() < 0.5]
+        dgms[1] = dgms[1][:max(nmax, 1)]
+    reps = [rep, rep] if r.random() < 0.8 else [rep, r.choice([x for x in REPS if rep_ok(dgms[1], x)])]
+    return {"dgm1": dgms[0], "dgm2": dgms[1], "mode": "int", "shape1": r.randint(0, 2), "shape2": r.randint(0, 2),
+            "rep": reps, "below": False, "infs": 0}
+
+
 def gen_case(ctx, nmax, below=False):
     g, r = ctx.gen, ctx.rng
+    if not below and r.random() < 0.12:
+        return gen_int_case(ctx, nmax)
     mode = r.choice(["lattice", "lattice", "half", "dyadic", "dec", "unif"])
     sizes = []
     for _ in range(2):
@@ -245,8 +361,17 @@ def gen_case(ctx, nmax, below=False):
                     p[0], p[1] = p[1], p[0]
     if r.random() < 0.1:
         dgms = [[p + [float(r.randint(0, 9))] for p in d] for d in dgms]
+    # representation of the two arguments: every one that can hold the numbers unchanged is eligible (narrow and
+    # unsigned integer dtypes for small non-negative integer coordinates, float32, lists, tuples, Python ints)
+    reps = []
+    for d in dgms:
+        ok = reps_for(d)
+        narrow = [x for x in ok if x not in ("float64", "list", "tuple")]
+        reps.append(r.choice(narrow) if narrow and r.random() < 0.6 else r.choice(["float64", "float64", "list", "tuple"]))
+    if reps[0] in reps_for(dgms[1]) and r.random() < 0.6:
+        reps[1] = reps[0]                       # the same dtype on both sides: no promotion to a wider one
     return {"dgm1": dgms[0], "dgm2": dgms[1], "mode": mode, "shape1": r.randint(0, 2), "shape2": r.randint(0, 2),
-            "int": r.random() < 0.3, "below": below, "infs": infs}
+            "rep": reps, "below": below, "infs": infs}
 
 
 CORPUS = [
@@ -267,7 +392,7 @@ CORPUS = [
 
 def norm_case(c):
     out = {"dgm1": [list(map(float, p)) for p in c["dgm1"]], "dgm2": [list(map(float, p)) for p in c["dgm2"]]}
-    for k in ("mode", "shape1", "shape2", "int", "below", "infs"):
+    for k in ("mode", "shape1", "shape2", "int", "rep", "below", "infs"):
         if k in c:
             out[k] = c[k]
     out.setdefault("mode", "unif")
@@ -275,7 +400,9 @@ def norm_case(c):
 
 
 def scale_of(case):
-    return max([abs(x) for d in (case["dgm1"], case["dgm2"]) for p in d for x in p[:2] if math.isfinite(x)] + [1.0])
+    """largest |coordinate| — NOT floored at 1 (a floor makes small-scale inexact cases 1e-4-relative); 1e-300 only
+    keeps the all-zero case away from a zero tolerance"""
+    return max([abs(x) for d in (case["dgm1"], case["dgm2"]) for p in d for x in p[:2] if math.isfinite(x)] + [1e-300])
 
 
 def same_value(code, truth, case):
@@ -309,6 +436,68 @@ def probe_lines(probes):
     return lines, pyfail
 
 
+def tie_lines(case, code):
+    """probe-level tie: the model's candidate list and, for every Hopcroft–Karp probe of the real run, the model's
+    threshold graph at the threshold the code used -> ([(kind, probe index, line)], reason it is not possible)"""
+    if code[0] != "ok":
+        return [], None
+    rec = code[5]
+    if rec.ds is None or len(rec.thr) != len(code[4]) or any(d is None or math.isnan(d) for d in rec.thr) \
+            or any(math.isnan(x) for x in rec.ds):
+        return [], "unobserved"
+    a, b = enc(case["dgm1"]), enc(case["dgm2"])
+    out = [("cands", None, "cands %s %s" % (a, b))]
+    exact = case.get("mode") in EXACT_MODES
+    tol = Fraction(TOL * scale_of(case))
+    for k, d in enumerate(rec.thr):
+        if exact or math.isinf(d):
+            out.append(("thr", k, "thr %s %s %s" % (a, b, enc(d))))
+        else:       # rounding may move an entry across d: the code's graph must lie between the model's at d -+ tol
+            out.append(("thr_lo", k, "thr %s %s %s" % (a, b, enc(Fraction(d) - tol))))
+            out.append(("thr_hi", k, "thr %s %s %s" % (a, b, enc(Fraction(d) + tol))))
+    return out, None
+
+
+def tie_check(case, code, tie_idx, answers):
+    """None, or a description of the first place where the real run and the model differ at probe level"""
+    rec = code[5]
+    exact = case.get("mode") in EXACT_MODES
+    tol = TOL * scale_of(case)
+    for kind, k, i in tie_idx:
+        ans = answers[i]
+        if not isinstance(ans, list):
+            raise HarnessError("model driver answered %r for a %s line" % (ans, kind))
+        if kind == "cands":
+            mine = [float(x) for x in ans]
+            if exact:
+                same = len(mine) == len(rec.ds) and all(
+                    (x == y) if (math.isinf(x) or math.isinf(y)) else Fraction(x) == Fraction(y) for x, y in zip(ans, rec.ds))
+            else:
+                near = lambda x, ys: any((x == y) if (math.isinf(x) or math.isinf(y)) else abs(x - y) <= tol for y in ys)
+                same = all(near(x, mine) for x in rec.ds) and all(near(y, rec.ds) for y in mine)
+            if not same:
+                return "candidate list: code %r, model %r" % (rec.ds[:12], mine[:12])
+            continue
+        graph = code[4][k][0]
+        n = len(ans)
+        adj = [set(int(j) for j in row) for row in ans]
+        cg = [set(graph.get(str(r_), ())) for r_ in range(n)]
+        if len(graph) != n:
+            return "probe %d: the code's graph has %d rows, the model's %d" % (k, len(graph), n)
+        if kind == "thr":
+            bad = [r_ for r_ in range(n) if cg[r_] != adj[r_]]
+        elif kind == "thr_lo":
+            bad = [r_ for r_ in range(n) if not adj[r_] <= cg[r_]]
+        else:
+            bad = [r_ for r_ in range(n) if not cg[r_] <= adj[r_]]
+        if bad:
+            r_ = bad[0]
+            return ("probe %d at d=%r (%s): row %d of the code's threshold graph is %r, the model's %r"
+                    % (k, rec.thr[k], {"thr": "exact", "thr_lo": "must contain the model's graph at d-tol",
+                                       "thr_hi": "must be inside the model's graph at d+tol"}[kind], r_, sorted(cg[r_]), sorted(adj[r_])))
+    return None
+
+
 def truth_for(case):
     """[certified] exact optimum of the specification for this input, with the protocol line that verifies it"""
     v, pairs, pred, R, C = oracle_opt(case)
@@ -325,8 +514,9 @@ def small(case):
 
 def run(ctx):
     r = ctx.rng
+    ctx.extra["core_theorems"] = CORE_THEOREMS
     cases = [norm_case(c) for c in CORPUS]
-    nsmall = ctx.n(700, 8000)
+    nsmall = ctx.n(1200, 8000)
     nbig = ctx.n(6, 1000)
     for _ in range(nsmall):
         cases.append(gen_case(ctx, 7, below=r.random() < 0.05))
@@ -365,16 +555,24 @@ def run(ctx):
         for kind, ln in pl:
             ent["probe_idx"].append((kind, len(lines)))
             lines.append(ln)
+        tl, why = tie_lines(case, code)
+        ent["tie_idx"], ent["tie_skipped"] = [], why
+        for kind, kprobe, ln in tl:
+            ent["tie_idx"].append((kind, kprobe, len(lines)))
+            lines.append(ln)
         plan.append(ent)
     ctx.extra["line_coverage_first_80_cases"] = cov.summary()
     answers = ask(lines)
 
     # 2. compare
+    deferred = []
     for ent in plan:
         case, code = ent["case"], ent["code"]
         fin = len(finite_part(case["dgm1"])) + len(finite_part(case["dgm2"]))
         ctx.case({"dgm1": case["dgm1"], "dgm2": case["dgm2"]}, nontrivial=fin >= 2, sample_every=53)
         ctx.count("mode:" + case.get("mode", "?"))
+        for rp in case_reps(case):
+            ctx.count("rep:" + str(rp))
         ctx.count("size:%s" % ("0" if fin == 0 else "1-4" if fin <= 4 else "5-8" if fin <= 8 else "9-14" if fin <= 14 else "15-40" if fin <= 40 else "41-80"))
         if not case["dgm1"] or not case["dgm2"]:
             ctx.count("empty_side")
@@ -400,6 +598,14 @@ def run(ctx):
             agree = False
         else:
             agree = (isinstance(mval, Fraction) and same_value(code[1], mval, case)) and code[2] == mw1 and code[3] == mw2
+        # 2b'. probe-level tie: candidate list and every probed threshold graph against the model's
+        tie = None
+        if ent["tie_skipped"]:
+            ctx.count("probe_tie_not_observable")
+        elif ent["tie_idx"]:
+            tie = tie_check(case, code, ent["tie_idx"], answers)
+            ctx.count("probe_tie_graphs_compared", sum(1 for kd, _, _ in ent["tie_idx"] if kd in ("thr", "thr_lo")))
+            ctx.count("probe_tie_exact" if case.get("mode") in EXACT_MODES else "probe_tie_sandwich")
         # 2c. [T] the property on the real code: value = certified optimum, flags = "something was dropped"
         prop_ok = True
         if truth is not None:
@@ -413,13 +619,20 @@ def run(ctx):
             ctx.violation("bottleneck differs from the min-max matching cost: code=%r certified optimum=%s exhaustive=%s model=%r"
                           % (code[:4], truth, spec, model), slim(case), found_input=True,
                           code=repr(code[:4]), spec=str(truth), reproducer=reproducer(case))
-        elif not agree:
-            found = search_fresh(ctx, case)
-            if not found:
-                ctx.violation("bottleneck differs from the model, property holds on every input tried: code=%r model=%r certified optimum=%s"
-                              % (code[:4], model, truth),
-                              {"correspondence": "bn", "line": lines[ent["idx"]["bn"]][:2000], "code": repr(code[:4]),
-                               "model": repr(model), "case": slim(case)}, found_input=False)
+        elif not agree or tie:
+            # correspondence break on an input where the property holds: keep going — a failing input may be among the
+            # remaining cases; otherwise fresh inputs are searched after the loop (DESIGN 3.3)
+            ctx.count("correspondence_break_property_holds")
+            if len(deferred) < 3:
+                if not agree:
+                    deferred.append((case, "bottleneck differs from the model, property holds on every input tried: code=%r model=%r certified optimum=%s"
+                                     % (code[:4], model, truth),
+                                     {"correspondence": "bn", "line": lines[ent["idx"]["bn"]][:2000], "code": repr(code[:4]),
+                                      "model": repr(model), "case": slim(case)}))
+                else:
+                    deferred.append((case, "bottleneck takes a different route than the model (same value, property holds on every input tried): " + tie,
+                                     {"correspondence": "bn.probes", "line": lines[ent["idx"]["bn"]][:2000], "code": tie,
+                                      "model": "see `what`", "case": slim(case)}))
         # 2d. the Hopcroft–Karp contract on every probe of this run
         hk_ok = ent["pyfail"] is None
         for kind, i in ent["probe_idx"]:
@@ -434,6 +647,10 @@ def run(ctx):
                           {"correspondence": "hk", "case": slim(case), "pyfail": ent["pyfail"]}, found_input=False)
         if len(ctx.violations) > 5:
             return
+    if deferred and not any(found for _, found in ctx.violations):
+        if not search_fresh(ctx, deferred[0][0]):
+            for _, what, rec_ in deferred:
+                ctx.violation(what, rec_, found_input=False)
     matching_flag(ctx, plan)
     hash_seeds(ctx, cases)
 
@@ -445,8 +662,7 @@ def matching_flag(ctx, plan):
         case, code = ent["case"], ent["code"]
         if code[0] != "ok":
             continue
-        a = to_array(case["dgm1"], case.get("shape1", 0), case.get("int", False))
-        b = to_array(case["dgm2"], case.get("shape2", 0), case.get("int", False))
+        a, b = case_args(case)
         with warnings.catch_warnings():
             warnings.simplefilter("ignore")
             with np.errstate(all="ignore"):
@@ -463,14 +679,22 @@ def matching_flag(ctx, plan):
 
 
 def slim(case):
-    return {k: case[k] for k in ("dgm1", "dgm2", "mode", "shape1", "shape2", "int") if k in case}
+    return {k: case[k] for k in ("dgm1", "dgm2", "mode", "shape1", "shape2", "int", "rep") if k in case}
+
+
+def _literal(d, rep):
+    if not rep_ok(d, rep):
+        rep = "float64"
+    if rep in ("list", "tuple", "pyint"):
+        return repr(to_array(d, 0, rep))
+    width = max(2, len(d[0]) if d else 2)
+    return "np.array(%r, dtype=np.%s).reshape(-1, %d)" % (json.loads(json.dumps(common.sanitize(d))), rep, width)
 
 
 def reproducer(case):
-    return ("import numpy as np; from persim.bottleneck import bottleneck; print(bottleneck(np.array(%r, dtype=float).reshape(-1, %d), "
-            "np.array(%r, dtype=float).reshape(-1, %d)))"
-            % (json.loads(json.dumps(common.sanitize(case["dgm1"]))), max(2, len(case["dgm1"][0]) if case["dgm1"] else 2),
-               json.loads(json.dumps(common.sanitize(case["dgm2"]))), max(2, len(case["dgm2"][0]) if case["dgm2"] else 2)))
+    r1, r2 = case_reps(case)
+    return ("import numpy as np; from persim.bottleneck import bottleneck; print(bottleneck(%s, %s))"
+            % (_literal(case["dgm1"], r1), _literal(case["dgm2"], r2))).replace("'inf'", "np.inf").replace("'nan'", "np.nan").replace("'-inf'", "-np.inf")
 
 
 def check_property(case):
@@ -593,14 +817,17 @@ def replay(ctx, rep):
 
 
 MANIFEST = {
-    "text": "Proof: Lean theorems about the model of persim.bottleneck.bottleneck over any linear ordered field, for diagrams of every "
+    "text": "Proof (23 theorems, of which 3 are the core statements: bottleneck_eq_spec, oracle_irrelevant, inf_dropped; the rest are the "
+            "steps they are proved from, checker soundness and concrete instances): Lean theorems about the model of persim.bottleneck.bottleneck over any linear ordered field, for diagrams of every "
             "size (including empty sides), repeated/diagonal points and ties: the bisect loop returns the least feasible candidate "
             "(bsearch_least), feasibility is monotone, the threshold graph of the augmented matrix has a perfect matching iff some "
             "partial matching has all pairings within d (aug_perfect_iff_pm), hence for EVERY oracle returning a maximum matching the "
             "returned value is the min-max matching cost of Spec/Matching.lean (bottleneck_eq_spec) — so it cannot depend on which "
             "maximum matching, i.e. on the hash seed (oracle_irrelevant); non-finite deaths are dropped and flagged (inf_dropped). "
             "The model is tied to the code on every run by executing it at exact rationals against the real function (value exact "
-            "on dyadic inputs, warning flags), and the real value is additionally checked against the exhaustive specification "
+            "on dyadic and integer inputs, warning flags; arguments in every representation — float64/float32/integer arrays incl. uint8/int8, "
+            "lists, tuples, Python ints — the model being dtype-free), and at probe level: the candidate list and the threshold graph of every "
+            "Hopcroft–Karp probe of the real run equal the model's; the real value is additionally checked against the exhaustive specification "
             "(M+N<=8) and against an optimum certificate verified by Lean-proved checkers (cover_cert_sound, cert_opt_sound) at every size.",
     "note": "Trusted: Lean kernel + Mathlib, axioms propext/Classical.choice/Quot.sound; the correspondence harness; exact-arithmetic "
             "idealisation (float rounding only in the [T] comparison). The Hopcroft–Karp routine is NOT verified: its contract "
